@@ -115,6 +115,12 @@ def _recursion_ok(ctx, comp, funcs):
                 if isinstance(first, ast.Subscript) and isinstance(first.value, ast.Name) and first.value.id == p0:
                     ok = True
                 if isinstance(first, ast.Name):
+                    # a local bound to an element of the first parameter: `last = elem[-1]; f(last, ...)`
+                    from ..pyutil import binding_sites
+                    bs = [b for b in binding_sites(f.node, first.id) if b[0] == 'assign']
+                    if bs and all(isinstance(b[1], ast.Subscript) and isinstance(b[1].value, ast.Name) and b[1].value.id == p0
+                                  and not isinstance(b[1].slice, ast.Slice) for b in bs):
+                        ok = True
                     for p in parents(call):
                         if isinstance(p, ast.For) and isinstance(p.target, ast.Name) and p.target.id == first.id:
                             it = p.iter
@@ -212,9 +218,13 @@ def r2_sibling_relation_queries(ctx, res):
             sel = [s.replace(' ', '') for s in (st.select_list() or [])]
             if sel[:3] != ['rel.type', 'rel.lexicon', 'rel.metadata']:
                 res.find(key + ':select', loc, f'{fname}: select list starts with {sel[:3]}, expected rel.type, rel.lexicon, rel.metadata')
-            if 'rt' not in st.ctes or 'JOIN rt ON srel.type_rowid = rt.rowid' not in flat:
+            import re as _re_rt
+            rel_alias = next((o.alias for o in st.occs if o.kind == 'table' and o.table == reltable), None)
+            rt_join = rel_alias is not None and bool(_re_rt.search(
+                r'JOIN rt ON (?:' + _re_rt.escape(rel_alias) + r'\.type_rowid = rt\.rowid|rt\.rowid = ' + _re_rt.escape(rel_alias) + r'\.type_rowid)', flat))
+            if 'rt' not in st.ctes or not rt_join:
                 res.find(key + ':rt', loc, f'{fname}: relation rows are not joined to the rt (relation type) CTE on type_rowid')
-            if f'FROM {reltable} AS srel' not in flat:
+            if rel_alias is None or not _re_rt.search(r'FROM ' + reltable + r'(?: AS)? ' + _re_rt.escape(rel_alias) + r'\b', flat):
                 res.find(key + ':table', loc, f'{fname}: does not read {reltable}')
             if f'JOIN {tgttable} AS' not in flat or 'rel.target_rowid' not in flat:
                 res.find(key + ':target', loc, f'{fname}: targets are not resolved in {tgttable} through rel.target_rowid')
